@@ -12,15 +12,15 @@
    master / minion / garbage, the cert-manager challenge label, use-cluster-ip and health-check
    annotations; 4 prior states; all feature flags. *)
 From Coq Require Import List Bool Arith.
-From NIC Require Import Shapes.Model Shapes.Proofs.
+From NIC Require Import Shapes.Model Shapes.Proofs Shapes.ProofsGeneral.
 Import ListNotations.
 
-(* The sweep itself, as a boolean computed over the whole Ingress shape space. *)
-Theorem C17_no_panic_shapes_sweep :
-  forallb (fun fl => forallb (fun c => forallb (fun sh =>
-    negb (shape_admissible sh) ||
-    negb (is_panic (scenario_pipeline {| sc_flags := fl; sc_ctx := c; sc_shape := sh |})))
-    all_ing_shapes) all_ctx) all_iflags = true.
+(* The sweep itself, as a boolean computed over the whole Ingress shape space:
+     ing_sweep P    = forallb (fun fl => forallb (fun c => forallb (fun sh =>
+                        P {| sc_flags := fl; sc_ctx := c; sc_shape := sh |}) all_ing_shapes) all_ctx) all_iflags
+     ing_no_panic s = negb (shape_admissible (sc_shape s)) || negb (is_panic (scenario_pipeline s))
+   (stated through the two definitions so that the kernel compares names, not 586752 evaluations) *)
+Theorem C17_no_panic_shapes_sweep : ing_sweep ing_no_panic = true.
 Proof. exact ing_sweep_no_panic. Qed.
 Print Assumptions C17_no_panic_shapes_sweep.
 
@@ -40,6 +40,34 @@ Theorem C17_no_panic_shapes :
 Proof. exact ing_no_panic_shapes. Qed.
 Print Assumptions C17_no_panic_shapes.
 
+(* ---- beyond the finite space: the same model functions over UNBOUNDED Ingress objects and
+   histories.  For all seven flags, any set of VirtualServer hosts, and every history of
+   upserts of API-admissible Ingresses (any number of rules, paths, tls entries, any
+   annotations/labels of the model) and deletions, starting from the empty store: no event
+   panics in validation, arbitration (rebuildHosts incl. convertIngressToVSR and
+   buildMinionConfigs), extension/generation of every host-holding resource, or deletion.
+   ([run] returns None as soon as one step panics.)  Proved by induction on the history with
+   the invariant "every stored Ingress passed validate_ingress and is admissible". *)
+Theorem C17_ingress_history_no_panic :
+  forall (fl : flags) (vss : list vserver) (evs : list event),
+    forallb event_admissible evs = true ->
+    run (iflags_of fl) {| s_ings := []; s_vss := vss |} evs <> None.
+Proof. exact history_from_empty_no_panic. Qed.
+Print Assumptions C17_ingress_history_no_panic.
+
+(* One Ingress against ANY state whose stored Ingresses were validated: the four observed
+   stages never panic. *)
+Theorem C17_ingress_pipeline_no_panic_any_state :
+  forall (fl : iflags) (st : state) (i : ingress),
+    good fl st -> ing_admissible i = true -> ing_pipeline fl st i <> OPanic.
+Proof. exact ing_pipeline_no_panic. Qed.
+Print Assumptions C17_ingress_pipeline_no_panic_any_state.
+
+(* The validator alone never panics, admissible or not (with fixes/F05.diff). *)
+Theorem C17_validate_ingress_total : forall fl i, exists b, validate_ingress fl i = Val b.
+Proof. exact validate_ingress_total. Qed.
+Print Assumptions C17_validate_ingress_total.
+
 (* Refuted for the unpatched tree (finding F05): with validateChallengeIngress as it stands
    before fixes/F05.diff, an API-admissible challenge Ingress whose only path has a resource
    backend panics. *)
@@ -47,6 +75,68 @@ Theorem C17_no_panic_unpatched_refuted :
   exists s, shape_admissible (sc_shape s) = true /\ scenario_pipeline_old s = OPanic.
 Proof. exact no_panic_old_refuted. Qed.
 Print Assumptions C17_no_panic_unpatched_refuted.
+
+(* ---- custom resources.  Every shape of these spaces is admitted by the published CRD
+   schemas (they mark nothing of what the spaces vary as required), so there is no
+   admissibility hypothesis.  BOUND: VirtualServer / VirtualServerRoute: one route whose
+   action is nil / empty / pass / redirect / return / proxy (request and response header
+   blocks nil or not, requestHeaders.pass nil or not) / two at once; 0, 1 or 2 splits with
+   action nil / pass / return; 0 or 1 match with 0 or 1 condition, action nil or not, 0 or 2
+   splits (first action nil or not); 0 or 1 error page with return and redirect nil or not;
+   a route reference or none; or spec.tls nil / {secret, redirect nil / {code nil or not},
+   cert-manager nil or not} with spec.listener nil or not; or one upstream with healthCheck
+   (tls nil or not) / sessionCookie / queue / buffers / backup+backupPort / backup only /
+   backupPort only / integer pointers.  TransportServer: listener TCP / UDP / TLS passthrough,
+   host, tls nil / {} / {secret}, 0 or 1 upstream with healthCheck nil / {match nil} /
+   {match}, upstreamParameters nil / set / with UDP pointers, sessionParameters, action nil /
+   {} / {pass}.  Policy: no, one or two sub-specs, with the optional structure of each.
+   GlobalConfiguration: 5 listener lists. *)
+
+Theorem C17_virtualserver_no_panic_shapes :
+  forall (fl : flags) (c : vctx) (s : vs_shape),
+    crd_worst (vs_observe (f_plus fl) (f_certmgr fl) c (vs_of s)) <> OPanic.
+Proof. exact vs_no_panic_shapes. Qed.
+Print Assumptions C17_virtualserver_no_panic_shapes.
+
+Theorem C17_virtualserverroute_no_panic_shapes :
+  forall (fl : flags) (c : rctx) (s : vsr_shape),
+    crd_worst (vsr_observe (f_plus fl) c (vsr_of s)) <> OPanic.
+Proof. exact vsr_no_panic_shapes. Qed.
+Print Assumptions C17_virtualserverroute_no_panic_shapes.
+
+Theorem C17_transportserver_no_panic_shapes :
+  forall (fl : flags) (c : tctx) (s : ts_shape),
+    crd_worst (ts_observe (f_tlspass fl) c (ts_of s)) <> OPanic.
+Proof. exact ts_no_panic_shapes. Qed.
+Print Assumptions C17_transportserver_no_panic_shapes.
+
+(* Refuted for the unpatched tree (finding F43): a valid TransportServer with an empty tls
+   block on an active TCP listener panics in generateSSLConfig. *)
+Theorem C17_transportserver_unpatched_refuted :
+  exists tp c s, validate_ts tp (ts_of s) = false /\
+                 crd_worst (ts_observe_old tp c (ts_of s)) = OPanic.
+Proof. exact ts_no_panic_old_refuted. Qed.
+Print Assumptions C17_transportserver_unpatched_refuted.
+
+Theorem C17_policy_no_panic_shapes :
+  forall (fl : flags) (s : pol_shape),
+    let o := pol_observe (f_plus fl) (f_approtect fl) (policy_of s) in
+    po_validate o <> OPanic /\ po_extend o <> OPanic.
+Proof. exact pol_no_panic_shapes. Qed.
+Print Assumptions C17_policy_no_panic_shapes.
+
+Theorem C17_globalconfiguration_no_panic_shapes :
+  forall g : gc_shape, crd_worst (gc_observe g) <> OPanic.
+Proof. exact gc_no_panic_shapes. Qed.
+Print Assumptions C17_globalconfiguration_no_panic_shapes.
+
+(* The enumerations that were swept are complete for their shape types. *)
+Theorem C17_crd_enumerations_complete :
+  (forall s : vs_shape, In s all_vs_shapes) /\ (forall s : vsr_shape, In s all_vsr_shapes) /\
+  (forall s : ts_shape, In s all_ts_shapes) /\ (forall s : pol_shape, In s all_pol_shapes) /\
+  (forall s : gc_shape, In s all_gc_shapes).
+Proof. exact (conj all_vs_shapes_complete (conj all_vsr_shapes_complete (conj all_ts_shapes_complete (conj all_pol_shapes_complete all_gc_shapes_complete)))). Qed.
+Print Assumptions C17_crd_enumerations_complete.
 
 (* Non-vacuity: the space contains admissible shapes that are accepted, admissible shapes
    that are rejected, and the admissibility hypothesis is needed (a backend with neither
@@ -67,3 +157,26 @@ Example C17_hypothesis_needed :
   scenario_pipeline {| sc_flags := {| if_plus := false; if_certmgr := false |}; sc_ctx := CEmpty;
                        sc_shape := neither_shape |} = OPanic.
 Proof. exact inadmissible_can_panic. Qed.
+
+(* the validators' guards are what make the generators' dereferences safe *)
+Example C17_policy_guards_needed :
+  validate_policy true true true (policy_of (Po1 (KRate (Rl false (Some false))))) = true /\
+  gen_policy (policy_of (Po1 (KRate (Rl false (Some false))))) = Pan /\
+  validate_policy true true true (policy_of (Po1 (KApiKey Ak0))) = true /\
+  gen_policy (policy_of (Po1 (KApiKey Ak0))) = Pan.
+Proof. exact policy_guards_needed. Qed.
+
+Example C17_f43_fixed : crd_worst (ts_observe false TCGlobal (ts_of f43_shape)) = OOk.
+Proof. exact f43_fixed_ok. Qed.
+
+(* non-vacuity of the history theorem: a history with a master, two minions, a challenge
+   Ingress and a deletion runs to a state with three stored Ingresses *)
+Example C17_history_nonvacuous :
+  let chal := {| i_key := 5; i_created := 5; i_default := None; i_tls := 0;
+                 i_rules := [{| r_host := 1; r_http := Some [svc_path] |}];
+                 i_merge := MNone; i_chal := true; i_ann := ANone |} in
+  let evs := [EUpsert ctx_master; EUpsert ctx_minion; EUpsert chal; EUpsert (ingress_of f05_shape); EDelete 2] in
+  forallb event_admissible evs = true /\
+  option_map (fun st => List.length (s_ings st))
+    (run {| if_plus := true; if_certmgr := true |} {| s_ings := []; s_vss := [{| v_host := 1; v_created := 0 |}] |} evs) = Some 2.
+Proof. vm_compute. split; reflexivity. Qed.
